@@ -141,3 +141,4 @@ Example C09_nonvacuous :
   /\ sp_known_at PPreprocess AP_toy None [mkact "ppos" KPos] [mkact "cpos" KPos] [] ["1"; "2"] = Ok ([("cpos", NV "1"); ("ppos", NV "2")], [])
   /\ argparse_then_post AP_toy None [mkact "ppos" KPos] [mkact "cpos" KPos] [] ["1"; "2"] = Ok ([("ppos", NV "1"); ("cpos", NV "2")], []).
 Proof. vm_compute. repeat split; reflexivity. Qed.
+Print Assumptions C09_nonvacuous.
